@@ -45,6 +45,9 @@ def install_executor_recorder():
 CURRENT = Recorder()
 
 
+FLAG_RESUME = False     # when set, the recording scheduler marks every other assignment `is_resume=True` (as an external scheduler may): a flag without effect on counting
+
+
 def recording_scheduler(algo):
     """register (once) a scheduler key that forwards to `algo` and records what goes in and out"""
     from eudoxia.scheduler.decorators import register_scheduler, register_scheduler_init, INIT_ALGOS, SCHEDULING_ALGOS
@@ -60,6 +63,10 @@ def recording_scheduler(algo):
     @register_scheduler(key=key)
     def sched(s, results, pipelines):
         sus, asg = inner(s, results, pipelines)
+        if FLAG_RESUME:
+            for k, a in enumerate(asg):
+                if k % 2 == 0:
+                    a.is_resume = True
         CURRENT.ticks.append({"results": list(results), "pipelines": list(pipelines), "sus": list(sus), "asg": list(asg)})
         return sus, asg
 
